@@ -5,6 +5,9 @@ use errno::{errno, Errno};
 use std::ffi::{c_void, CStr};
 use std::mem::size_of;
 use std::ptr;
+#[cfg(clock_bound_verif)]
+use crate::verif::atomic;
+#[cfg(not(clock_bound_verif))]
 use std::sync::atomic;
 
 use crate::shm_header::ShmHeader;
@@ -137,7 +140,10 @@ pub struct ShmReader {
     // A raw pointer into the shared memory segment, pointing to the ClockErrorBound section. Note
     // that the structured reference by this pointer may not be consistent, and reading it requires
     // to assert the generation value.
+    #[cfg(not(clock_bound_verif))]
     ceb_shm: *const ClockErrorBound,
+    #[cfg(clock_bound_verif)]
+    ceb_shm: crate::verif::ConstPtr<ClockErrorBound>,
 
     // The last snapshot of ClockErrorBound taken. This acts as a cache to avoid waiting for the
     // writer to complete an update and allow to share a reference to this memory location
@@ -177,6 +183,10 @@ impl ShmReader {
         // SAFETY: segment size has been checked to ensure `cursor` move leads to a valid cast
         cursor = unsafe { cursor.add(size_of::<ShmHeader>()) };
         let ceb_shm = unsafe { ptr::addr_of!(*cursor.cast::<ClockErrorBound>()) };
+        #[cfg(clock_bound_verif)]
+        let ceb_shm = crate::verif::ConstPtr::new(ceb_shm);
+        #[cfg(clock_bound_verif)]
+        crate::verif::register_mapping(mmap_guard.segment as usize, mmap_guard.segsize, false);
 
         Ok(ShmReader {
             _marker: std::marker::PhantomData,
@@ -187,6 +197,12 @@ impl ShmReader {
             snapshot_ceb: ClockErrorBound::default(),
             snapshot_gen: 0,
         })
+    }
+
+    /// Verification accessor: the generation and record currently cached by this reader.
+    #[cfg(clock_bound_verif)]
+    pub fn verif_state(&self) -> (u16, ClockErrorBound) {
+        (self.snapshot_gen, self.snapshot_ceb)
     }
 
     /// Return a consistent snapshot of the shared memory segment.
